@@ -1,5 +1,5 @@
 CONSTANTS
-  FULL = FALSE
+  SPACE = "thin"
 INIT Init
 NEXT Next
 INVARIANT Law
